@@ -252,7 +252,8 @@ func Gen(rng *rand.Rand, class string, o GenOpts) *Batch {
 					f.Toks = append(f.Toks, tok)
 					f.Len += tok.Freq
 				}
-				if nt > 0 {
+				if len(f.Toks) > 0 {
+					// input domain: an instance with tokens has analysed length >= 1
 					f.Len += rng.Intn(3)
 					if f.Len == 0 {
 						f.Len = 1
